@@ -82,8 +82,9 @@ func (prog *Prog) Dump(dest io.Writer) error {
 	for _, v := range prog.constants {
 		// all but string can fit in a fixed buffer
 		if s, ok := v.(string); ok {
-			if 2+len(s) > len(p) {
-				p = make([]byte, 2+len(s))
+			// type byte + length as uvarint (up to 9 bytes) + content
+			if n := 1 + 9 + len(s); n > len(p) {
+				p = make([]byte, n)
 			}
 		}
 		n = valueToBytes(p, v)
